@@ -545,43 +545,36 @@ def rule_median(model):
         return _X().visit(_copy(e))
     for nd, v in stores:
         if isinstance(v, ast.Name):
-            defs0 = [d for d in model.local_defs(fi, v.id)
-                     if isinstance(d, ast.AST)]
-            direct = [d for d in defs0 if any(
-                isinstance(x, ast.Subscript) and norm(x.value) == vals
-                for x in ast.walk(d))]
-            if not direct and defs0:
-                # every definition combines locals that hold the values
-                ex = [(d, expand(d)) for d in defs0]
-                if all(any(isinstance(x, ast.Subscript) and
-                           norm(x.value) == vals for x in ast.walk(e_))
-                       for _, e_ in ex):
-                    for d, e_ in ex:
-                        work.append((nd, e_, d))
-                    continue
-        if isinstance(v, ast.Name):
-            # a local that holds the combination: its definition that
-            # reads the values, and the definitions derived from itself
+            # a local holds the median: every definition is judged with
+            # single-definition locals (an inlined helper's parameters:
+            # lower = values[half - 1]) written out; a definition derived
+            # from the local itself (m = m // 2) is the combination of the
+            # one definition that reads the values
             defs = [d for d in model.local_defs(fi, v.id)
                     if isinstance(d, ast.AST)]
-            base = [d for d in defs if any(
-                isinstance(x, ast.Subscript) and norm(x.value) == vals
+
+            def reads(e_):
+                return any(isinstance(x, ast.Subscript) and
+                           norm(x.value) == vals for x in ast.walk(e_))
+            selfref = [d for d in defs if any(
+                isinstance(x, ast.Name) and x.id == v.id
                 for x in ast.walk(d))]
-            if len(base) == 1:
-                derived = [d for d in defs if d is not base[0] and any(
-                    isinstance(x, ast.Name) and x.id == v.id
-                    for x in ast.walk(d))]
-                if derived:
-                    for d in derived:
-                        # `m // 2 if isinstance(m, int) else m / 2`: both
-                        # arms are combinations of their own
-                        arms = [d.body, d.orelse] if isinstance(
-                            d, ast.IfExp) else [d]
-                        for arm in arms:
-                            work.append((nd, _subst(arm, v.id, base[0]),
-                                         arm))
-                else:
-                    work.append((nd, base[0], base[0]))
+            base = [(d, expand(d)) for d in defs if d not in selfref]
+            base = [(d, e_) for d, e_ in base if reads(e_)]
+            if selfref and len(base) == 1:
+                for d in selfref:
+                    arms = [d.body, d.orelse] if isinstance(d, ast.IfExp) \
+                        else [d]
+                    for arm in arms:
+                        work.append((nd, _subst(arm, v.id, base[0][1]),
+                                     arm))
+                continue
+            if base and not selfref:
+                for d, e_ in base:
+                    arms = [(e_.body, d), (e_.orelse, d)] if isinstance(
+                        e_, ast.IfExp) else [(e_, d)]
+                    for arm, o_ in arms:
+                        work.append((nd, arm, o_))
                 continue
             r.instance(fi.where, nd, 'single value')
             continue
@@ -603,11 +596,18 @@ def rule_median(model):
         which = None
         for c in (2, 3, 4, 5, 6, 7):
             env = {cnt: c, 'half': c // 2}
+            # a second name for the count:  n = len(values)
+            for st in own_nodes(fi.node):
+                if isinstance(st, ast.Assign) and len(st.targets) == 1 \
+                        and isinstance(st.targets[0], ast.Name) and \
+                        norm(st.value) == f'len({vals})':
+                    env[st.targets[0].id] = c
+            cnt_names = set(env)
             # locals bound from the count (half = count // 2)
             for st in own_nodes(fi.node):
                 if isinstance(st, ast.Assign) and len(st.targets) == 1 \
                         and isinstance(st.targets[0], ast.Name) and any(
-                            isinstance(x, ast.Name) and x.id == cnt
+                            isinstance(x, ast.Name) and x.id in cnt_names
                             for x in ast.walk(st.value)):
                     try:
                         env[st.targets[0].id] = constfold.fold(
@@ -615,9 +615,15 @@ def rule_median(model):
                     except constfold.NotConstant:
                         pass
             got = set()
+            class _Len(ast.NodeTransformer):
+                def visit_Call(self, node):
+                    if norm(node) == f'len({vals})':
+                        return ast.copy_location(ast.Constant(value=c), node)
+                    return self.generic_visit(node)
             for sx in subs:
                 try:
-                    got.add(constfold.fold(sx.slice, {}, dict(env)))
+                    got.add(constfold.fold(
+                        _Len().visit(_copy(sx.slice)), {}, dict(env)))
                 except constfold.NotConstant:
                     idx_ok = False
             if len(subs) == 1:
